@@ -14,6 +14,7 @@ from ..core import ToolError
 
 DECAY = "DP == <<<<1, 1>>, <<2, 1>>, <<5, 2>>>>\n"
 INVS = ["FloorsFit", "CanonFAOK", "FaSplit", "FaDiscriminates", "NoZeroDiscriminates",
+        "CanonFA1OK", "AllZeroNoFallback", "FaExactSplit", "FaExactDiscriminates",
         "DecayCanonOK", "DecayInfeasibleNone"]
 LABELS = ["all_same", "uniform", "stake_weighted", "turbine", "turbine_f2", "partition",
           "fa1_partition", "fa1_iid", "fa2", "decay_1_1", "decay_2_1", "decay_5_2"]
@@ -70,7 +71,8 @@ def run(ctx):
     if rep["nodes"] != expect_cases:
         raise ToolError(f"harness replayed {rep['nodes']} cases, TLC emitted {expect_cases}")
     h = rep["act_hist"]
-    for key in ["case.owed", "case.owed_boundary", "case.zero", "case.decay_infeasible"] + \
+    for key in ["case.owed", "case.owed_boundary", "case.zero", "case.decay_infeasible",
+                "case.exact_next_to_residual"] + \
             ["strategy." + x for x in LABELS]:
         if not h.get(key):
             raise ToolError(f"vacuity: no case of kind {key} in the small enumeration")
@@ -87,6 +89,9 @@ def run(ctx):
     ctx.notes["recorded"] = {k: rec[k] for k in ("events", "draws", "hist", "max_n")}
     phase["record"] = round(time.time() - t0, 1)
     t0 = time.time()
+    for kind in ("boundary", "exactheavy", "zeros", "whale"):
+        if not rec["hist"].get("dist." + kind):
+            raise ToolError(f"vacuity: no recorded stake vector of kind {kind}")
     pairs = []
     for i, ch in enumerate(rec["chunks"]):
         t = ctx.tlc(f"trace{i:03d}", "Trace_Sampler", TRACE_CFG, "", workers=1, timeout=600,
